@@ -711,6 +711,8 @@ def call_lua_sandbox(
     # The time limit belongs to the outermost invocation; nested ones (via
     # frame:preprocess etc.) run under the same deadline.
     outermost = len(ctx.lua_frame_stack) == 0
+    env_len = len(ctx.lua_env_stack)
+    frame_len = len(ctx.lua_frame_stack)
     try:
         ctx.lua_frame_stack.append(frame)
         if outermost:
@@ -736,17 +738,27 @@ def call_lua_sandbox(
         ok, text = True, ""
     except lupa.LuaError as e:
         ok, text, lua_exception = False, "", e
+    except Exception as e:
+        # A Python exception from below the Lua code that nothing there has
+        # caught (a module name the file system refuses, text that cannot be
+        # encoded for Lua, ...) is this invocation's failure, reported
+        # in-band like a Lua error.
+        ok, text, lua_exception = False, "", e
     finally:
         if outermost:
             ctx.lua_clear_timeout()
         while len(ctx.expand_stack) > stack_len:
             ctx.expand_stack.pop()
+        # Exactly what this invocation has pushed, also when it failed
+        # before or after its own pushes: a stale entry would make every
+        # later invocation a nested one (no time limit, no reset), a missing
+        # one would reset the environment under a running module.
+        while len(ctx.lua_env_stack) > env_len:
+            ctx.lua_env_stack.pop()
+        while len(ctx.lua_frame_stack) > frame_len:
+            ctx.lua_frame_stack.pop()
     # print("Lua call {} returned: ok={!r} text={!r}"
     #       .format(invoke_args, ok, text))
-    if len(ctx.lua_env_stack) > 0:
-        ctx.lua_env_stack.pop()
-    if len(ctx.lua_frame_stack) > 0:
-        ctx.lua_frame_stack.pop()
     if (
         not outermost
         and lua_exception is not None
